@@ -6,6 +6,7 @@ import (
 	"go/types"
 	"sort"
 	"strings"
+	"time"
 
 	"golang.org/x/tools/go/ssa"
 )
@@ -23,6 +24,7 @@ type Config struct {
 	Trace         bool
 	MapOrderFns   map[string]bool // functions in which map range order is nondeterministic
 	SymbolicLen   bool            // vpNondetString keeps a symbolic length instead of forking
+	TimeoutS      int             // wall-clock budget of one harness run
 }
 
 func DefaultConfig() Config {
@@ -61,6 +63,7 @@ type Engine struct {
 	j2         *j2State
 	funcObjs   map[*ssa.Function]int
 	lockHook   func(st *State, kind string, p *PtrV)
+	deadline   time.Time
 }
 
 type abortErr struct {
@@ -97,6 +100,9 @@ func (e *Engine) Close() { e.solver.Close() }
 
 // SetLog directs engine diagnostics to w.
 func (e *Engine) SetLog(w io.Writer) { e.solver.Log = w }
+
+// SetCrossCheck makes every verification condition be cross-checked with a second solver.
+func (e *Engine) SetCrossCheck(b bool) { e.solver.CrossCheck = b }
 
 // ---------------------------------------------------------------------------
 // Function info: value numbering and loop forest
